@@ -139,6 +139,17 @@ Fixpoint tcode (t : tree) : str :=
 Definition is_nil_t (l : list tree) : bool := match l with [] => true | _ => false end.
 Definition no_text (t : tree) : bool := match tcode t with [] => true | _ => false end.
 
+(* no error node / error leaf inside *)
+Fixpoint no_error (t : tree) : bool :=
+  match t with
+  | Leaf (KErrorLeaf _) _ _ _ _ => false
+  | Leaf _ _ _ _ _ => true
+  | Node KErrorNode _ => false
+  | Node _ cs => (fix all (l : list tree) : bool := match l with [] => true | c :: r => no_error c && all r end) cs
+  end.
+(* what convert_node('suite') may drop: a subtree without text and without error marker (the INDENT / DEDENT leaves) *)
+Definition blank (t : tree) : bool := no_text t && no_error t.
+
 Inductive perr := IncompleteInput | TooMuchInput | PFuel | PAttr | PIndex | PGuard | SyntaxErr (t : Token).
 Inductive pres (A : Type) := POk (a : A) | PErr (e : perr).
 Arguments POk {A}. Arguments PErr {A}.
@@ -187,9 +198,9 @@ Fixpoint split_params (children : list tree) (cur : list tree) : list tree :=
   | c :: t => if is_op c comma then flush (cur ++ [c]) ++ split_params t []
               else split_params t (cur ++ [c])
   end.
-(* Guards (PGuard): the Python code takes parameters.children[1:-1] / the lambda's middle children, which the grammar
+(* Guards (PGuard): create_params is never handed an error node; the Python code takes parameters.children[1:-1] / the lambda's middle children, which the grammar
    makes a list of at most one element, and drops suite.children[1] and [-1], which the grammar makes the zero-width
-   INDENT/DEDENT leaves.  The model checks these facts where the code relies on them silently; the parse
+   INDENT/DEDENT leaves (the guard: no text and no error leaf/node inside).  The model checks these facts where the code relies on them silently; the parse
    correspondence shows that PGuard never occurs on generated inputs. *)
 Definition create_params (argslist : list tree) : pres (list tree) :=
   match argslist with
@@ -200,11 +211,15 @@ Definition create_params (argslist : list tree) : pres (list tree) :=
     then POk [Node KParam [first]]
     else if is_op first star then POk [first]
     else
+      match first with
+      | Node KErrorNode _ => PErr PGuard     (* guard: an error node is never the parameter list (it would be unwrapped) *)
+      | _ =>
       let children := match node_rule first with
                       | Some r => if r =? r_tfpdef G then Some [first]
                                   else match first with Node _ cs => Some cs | _ => None end
                       | None => match first with Node _ cs => Some cs | _ => None end end in
       match children with Some cs => POk (split_params cs []) | None => PErr PAttr end
+      end
   end.
 
 
@@ -235,7 +250,7 @@ Definition convert_node (r : N) (children : list tree) : pres tree :=
   if r =? r_suite G then
     match children with
     | c0 :: c1 :: rest =>
-      if no_text c1 && match rev rest with [] => true | cl :: _ => no_text cl end
+      if blank c1 && match rev rest with [] => true | cl :: _ => blank cl end
       then POk (Node (KRule r) (c0 :: removelast rest)) else PErr PGuard
     | [c0] => POk (Node (KRule r) [c0])     (* [children[0]] + children[2:-1] *)
     | [] => PErr PIndex
